@@ -501,7 +501,9 @@ def _check_real_schur(ctx, f_real, prog):
                 return False
 
             log = []
-            chooser = Recorder(lambda cond, node, interp, r: False)
+            # comparisons (deflation / convergence / stagnation tests) are answered "not yet"; anything that is not a comparison
+            # (np.any / truth of an array ...) gets its generic outcome from the scenario mechanism
+            chooser = Recorder(lambda cond, node, interp, r: False if cond_parts(cond) is not None else None)
             it, d = new_interp(ctx, chooser=chooser,
                                summaries={"decomp.hessenberg:hessenbergize": s_hess,
                                           "decomp.hessenberg:check_hessenberg": lambda it, H, atol=1e-12: H.copy(),
